@@ -61,9 +61,18 @@ func main() {
 	flag.IntVar(&cfg.MaxPaths, "max-paths", 0, "stop after this many paths (0 = none); stopping is inconclusive")
 	flag.IntVar(&cfg.Workers, "workers", 16, "parallel workers")
 	flag.IntVar(&cfg.Verbose, "v", 0, "verbosity")
+	params := flag.String("params", "", "k=v,k=v harness parameters (bounds)")
 	required := flag.String("require-reach", "", "comma-separated reach markers that must be hit on some path")
 	flag.Parse()
 
+	cfg.Params = map[string]int{}
+	for _, kv := range strings.Split(*params, ",") {
+		if i := strings.Index(kv, "="); i > 0 {
+			n := 0
+			fmt.Sscanf(kv[i+1:], "%d", &n)
+			cfg.Params[kv[:i]] = n
+		}
+	}
 	var fl []string
 	if *files != "" {
 		fl = strings.Split(*files, ",")
